@@ -181,8 +181,13 @@ def c04(rng, tier):
                     viol.append({'what': 'C04 with verification, line classes %s: expected %r, got %r' % (''.join(seq), want, got2),
                                  'key': 'fsm-verify:' + ''.join(seq)[:12], 'props': ['C04', 'C09']})
                 if want[0] == 'ok':
+                    # BEGIN .. END as the cleartext framework delimits them: armor headers run to the first blank line (a
+                    # header line may even read like an END line), the body to the first signature header after it, the
+                    # signature to the first END line after that
                     b = flines.index(BEGIN)
-                    e = flines.index(SIGE)
+                    hend = next(i for i in range(b + 1, len(flines)) if not flines[i].strip())
+                    g = flines.index(SIGH, hend + 1)
+                    e = flines.index(SIGE, g + 1)
                     if env.seen != [''.join(flines[b:e + 1])] or m2.openpgp_signed is not True:
                         viol.append({'what': 'C04 verification input for %s: %r' % (''.join(seq), env.seen), 'key': 'verify-text', 'props': ['C04', 'C05']})
                 elif m2.openpgp_signed:
